@@ -234,6 +234,13 @@ func evalC10(col *vc.Collector, sc *C10Scn, res c10Result) {
 		autoOn := false
 		dials := 0
 		var lastSetupSeq int64 = -1
+		closedDial := false
+		knownSig := func(sig string) string {
+			if closedDial {
+				return "trust-restored-after-withdrawal-during-dial"
+			}
+			return sig
+		}
 		// a cancel aborts a pending handshake; only an unregister has to close a completed connection
 		lastWasUnregister := false
 		for _, e := range res.Evs {
@@ -254,17 +261,31 @@ func evalC10(col *vc.Collector, sc *C10Scn, res c10Result) {
 				registered, everRegistered = true, true
 				unregRet, unregSeq = -1, -1
 				lastWasUnregister = false
+				closedDial = false
 			case "api:unregister-ret", "api:cancel-ret":
 				registered = false
 				unregRet, unregSeq = e.T, e.Seq
 				lastWasUnregister = e.Kind == "api:unregister-ret"
+				// was this withdrawal issued while a dial to the target was being established (at-dial operation),
+				// and did that dial's TCP connection end right away? Then the hub did close the dial; if the service
+				// is trusted again afterwards, the hello-ok report of the closing dial restored the trust (recorded finding)
+				closedDial = false
+				atDial := false
+				for _, x := range res.Evs {
+					if x.Who == "H" && x.Kind == "at-dial" && x.Ski == ski && x.T <= e.T && e.T-x.T < 100*time.Millisecond {
+						atDial = true
+					}
+					if atDial && x.Who == "D" && x.Kind == "tcp-end" && x.Ski == ski && x.T >= e.T-100*time.Millisecond && x.T <= e.T+400*time.Millisecond {
+						closedDial = true
+					}
+				}
 			case "tcp-accept":
 				dials++
 				switch {
 				case !everRegistered:
 					col.Violation(prop, "dial-to-never-registered-ski", fmt.Sprintf("outbound TCP connection to target %d at %v although it was never registered", ti, e.T), sc.ID, wit)
 				case !registered && unregRet >= 0 && e.T > unregRet+c10Delta:
-					col.Violation(prop, "dial-after-unregister", fmt.Sprintf("outbound TCP connection to target %d at %v, %v after unregister/cancel returned, with no register in between", ti, e.T, e.T-unregRet), sc.ID, wit)
+					col.Violation(prop, knownSig("dial-after-unregister"), fmt.Sprintf("outbound TCP connection to target %d at %v, %v after unregister/cancel returned, with no register in between", ti, e.T, e.T-unregRet), sc.ID, wit)
 				}
 				if shutdownRet >= 0 && e.T > shutdownRet+c10Delta {
 					col.Violation(prop, "dial-after-shutdown", fmt.Sprintf("outbound TCP connection at %v, %v after Shutdown returned", e.T, e.T-shutdownRet), sc.ID, wit)
@@ -282,7 +303,7 @@ func evalC10(col *vc.Collector, sc *C10Scn, res c10Result) {
 						}
 					}
 					if ut < 0 || e.T > ut+c10Delta {
-						col.Violation("C01", "hub:setup-without-trust", fmt.Sprintf("SetupRemoteDevice for target %d at %v while the SKI is not registered and auto-accept is off", ti, e.T), sc.ID, wit)
+						col.Violation("C01", knownSig("hub:setup-without-trust"), fmt.Sprintf("SetupRemoteDevice for target %d at %v while the SKI is not registered and auto-accept is off", ti, e.T), sc.ID, wit)
 					}
 				}
 				if autoOn && !registered {
@@ -302,7 +323,7 @@ func evalC10(col *vc.Collector, sc *C10Scn, res c10Result) {
 						}
 					}
 					if e.T > ut+c10Delta {
-						col.Violation(prop, "setup-after-unregister", fmt.Sprintf("remote device of target %d set up at %v, after unregister/cancel returned at %v (auto-accept off)", ti, e.T, ut), sc.ID, wit)
+						col.Violation(prop, knownSig("setup-after-unregister"), fmt.Sprintf("remote device of target %d set up at %v, after unregister/cancel returned at %v (auto-accept off)", ti, e.T, ut), sc.ID, wit)
 					}
 				}
 			}
@@ -311,12 +332,12 @@ func evalC10(col *vc.Collector, sc *C10Scn, res c10Result) {
 		// end state
 		if !registered && everRegistered && !res.Down {
 			if res.Trusted[ti] {
-				col.Violation(prop, "still-trusted-after-unregister", fmt.Sprintf("target %d: ServiceForSKI().Trusted() is true after unregister/cancel", ti), sc.ID, wit)
+				col.Violation(prop, knownSig("still-trusted-after-unregister"), fmt.Sprintf("target %d: ServiceForSKI().Trusted() is true after unregister/cancel", ti), sc.ID, wit)
 			}
 			if res.LiveOut[ti] > 0 && !autoOn && unregSeq >= 0 && lastSetupSeq > unregSeq {
 				// C01 at hub level, end state: a remote device that was set up after the user withdrew trust is
 				// still connected when everything has settled (a completion that merely raced the call is closed by then)
-				col.Violation("C01", "hub:connected-without-trust-at-the-end", fmt.Sprintf("target %d was set up after unregister/cancel returned and is still connected at the end (auto-accept off)", ti), sc.ID, wit)
+				col.Violation("C01", knownSig("hub:connected-without-trust-at-the-end"), fmt.Sprintf("target %d was set up after unregister/cancel returned and is still connected at the end (auto-accept off)", ti), sc.ID, wit)
 			}
 			if res.LiveOut[ti] > 0 && lastWasUnregister {
 				col.Violation(prop, "connection-alive-after-unregister", fmt.Sprintf("target %d: %d live outbound TCP connections after unregister and settling", ti, res.LiveOut[ti]), sc.ID, wit)
